@@ -216,6 +216,10 @@ def body_predict(cube, **kw):
                 mb.add_link(m, lcf, 'L', 'ps', [a[0]], 'os', [a[3]])
             if bits[4]:
                 mb.add_link(m, lcf, 'L2', 'as2', [a[0]], 'os2', [a[2]])
+            if bits[0] or bits[3]:
+                mb.add_link(m, lcf, 'Tree', 'up', [a[1]], 'down', [a[0]])       # G1 above a0; spread -> down*.tP
+            if bits[1] and bits[2]:
+                mb.add_link(m, lcf, 'Tree', 'up', [a[0]], 'down', [a[1]])       # and a cycle
         g = AttackGraph(lg, m)
         return check_prediction(lg, g, spec)
 
